@@ -14,6 +14,8 @@ open NetVerif.Model.Dns NetVerif.Proofs.Dns NetVerif.Proofs.C36 NetVerif.Proofs.
 
 variable {k : Nat}
 
+attribute [local irreducible] compressionDepth
+
 /-! ## Without a map the buffer is never looked at -/
 
 theorem packLoop_none_buf (b1 b2 : Bytes) : ∀ (rest lab out : Bytes),
@@ -37,14 +39,14 @@ theorem usable_congr {b1 b2 : Bytes} (hs : SameFrom k b1 b2) {key : Bytes} {m : 
     (hinv : CompInvUpTo k key.length b1 m) : usable b1 key m = usable b2 key m := by
   unfold usable
   cases hl : lookup key m with
-  | none => rfl
+  | none => simp [Option.filter]
   | some p =>
     rcases hinv key p (Nat.le_refl _) hl with ⟨hkp, _, ls', d, e, hkey', hok', hd, h10⟩
     have : ls' = ls := textOf_inj _ _ hok' hok (by rw [← hkey', hkey])
     subst this
     have d1 := compressionDepth_of_decodes hd hok hlen h10
     have d2 := compressionDepth_of_decodes (hd.transfer hs hkp) hok hlen h10
-    simp [Option.filter, d1, d2]
+    simp only [Option.filter, d1, d2]
 
 theorem packLabels_congr {b1 b2 : Bytes} (hs : SameFrom k b1 b2) :
     ∀ (ls : List Bytes) (out : Bytes) (m : CompMap),
@@ -177,5 +179,587 @@ theorem packResources_congr : ∀ (rs : List Resource) {b1 b2 : Bytes} (comp : O
       simp only []
       rcases packResource_spec b1 x1 r comp c1 hinv hk (hwf r (by simp)) h1 with ⟨_, g2, _⟩
       rw [ih c1 (hs.append x1) (by simp; omega) (fun x hx => hwf x (by simp [hx])) g2]
+
+/-! ## All records of a message as one sequence -/
+
+inductive Rec
+  | q (q : Question)
+  | r (r : Resource)
+
+def packRec : Rec → Bytes → Option CompMap → Except Err (Bytes × Option CompMap)
+  | .q q, buf, c => packQuestion q buf c
+  | .r r, buf, c => packResource r buf c
+
+def packRecs : List Rec → Bytes → Option CompMap → Except Err (Bytes × Option CompMap)
+  | [], _, comp => .ok ([], comp)
+  | x :: xs, buf, comp =>
+    match packRec x buf comp with
+    | .error e => .error e
+    | .ok (b1, c1) =>
+      match packRecs xs (buf ++ b1) c1 with
+      | .error e => .error e
+      | .ok (b2, c2) => .ok (b1 ++ b2, c2)
+
+def WFRec : Rec → Prop
+  | .q q => WFQuestion q
+  | .r r => WFResource r
+
+/-- the records of a message in wire order -/
+def recs (m : Message) : List Rec :=
+  m.questions.map .q ++ (m.answers.map .r ++ (m.authorities.map .r ++ m.additionals.map .r))
+
+theorem packRecs_append : ∀ (xs ys : List Rec) (buf : Bytes) (c : Option CompMap),
+    packRecs (xs ++ ys) buf c =
+      match packRecs xs buf c with
+      | .error e => .error e
+      | .ok (b1, c1) =>
+        match packRecs ys (buf ++ b1) c1 with
+        | .error e => .error e
+        | .ok (b2, c2) => .ok (b1 ++ b2, c2) := by
+  intro xs
+  induction xs with
+  | nil =>
+    intro ys buf c
+    simp only [List.nil_append, packRecs, List.append_nil]
+    cases packRecs ys buf c with
+    | error e => rfl
+    | ok res => rcases res with ⟨b2, c2⟩; rfl
+  | cons x xs ih =>
+    intro ys buf c
+    simp only [List.cons_append, packRecs]
+    cases packRec x buf c with
+    | error e => rfl
+    | ok res =>
+      rcases res with ⟨b1, c1⟩
+      simp only []
+      rw [ih]
+      cases packRecs xs (buf ++ b1) c1 with
+      | error e => rfl
+      | ok res2 =>
+        rcases res2 with ⟨b2, c2⟩
+        simp only [List.append_assoc]
+        cases packRecs ys (buf ++ (b1 ++ b2)) c2 with
+        | error e => rfl
+        | ok res3 => rcases res3 with ⟨b3, c3⟩; simp
+
+theorem packRecs_map_q : ∀ (qs : List Question) (buf : Bytes) (c : Option CompMap),
+    packRecs (qs.map .q) buf c = packQuestions qs buf c := by
+  intro qs
+  induction qs with
+  | nil => intro buf c; rfl
+  | cons q qs ih =>
+    intro buf c
+    simp only [List.map_cons, packRecs, packRec, packQuestions, ih]
+    cases packQuestion q buf c with
+    | error e => rfl
+    | ok r =>
+      rcases r with ⟨b1, c1⟩
+      simp only []
+      cases packQuestions qs (buf ++ b1) c1 <;> rfl
+
+theorem packRecs_map_r : ∀ (rs : List Resource) (buf : Bytes) (c : Option CompMap),
+    packRecs (rs.map .r) buf c = packResources rs buf c := by
+  intro rs
+  induction rs with
+  | nil => intro buf c; rfl
+  | cons r rs ih =>
+    intro buf c
+    simp only [List.map_cons, packRecs, packRec, packResources, ih]
+    cases packResource r buf c with
+    | error e => rfl
+    | ok x =>
+      rcases x with ⟨b1, c1⟩
+      simp only []
+      cases packResources rs (buf ++ b1) c1 <;> rfl
+
+theorem packRec_spec (x : Rec) (msg bs : Bytes) (comp comp' : Option CompMap)
+    (hinv : CompInvOpt k msg comp) (hk : k ≤ msg.length) (hwf : WFRec x)
+    (hp : packRec x msg comp = .ok (bs, comp')) : CompInvOpt k (msg ++ bs) comp' := by
+  cases x with
+  | q q => exact (packQuestion_spec msg bs q comp comp' hinv hk hwf hp).2.1
+  | r r => exact (packResource_spec msg bs r comp comp' hinv hk hwf hp).2.1
+
+theorem packRecs_congr : ∀ (xs : List Rec) {b1 b2 : Bytes} (comp : Option CompMap),
+    SameFrom k b1 b2 → k ≤ b1.length → (∀ x ∈ xs, WFRec x) → CompInvOpt k b1 comp →
+    packRecs xs b1 comp = packRecs xs b2 comp := by
+  intro xs
+  induction xs with
+  | nil => intro b1 b2 comp _ _ _ _; rfl
+  | cons x xs ih =>
+    intro b1 b2 comp hs hk hwf hinv
+    have hx : packRec x b1 comp = packRec x b2 comp := by
+      cases x with
+      | q q => exact packQuestion_congr hs q comp (hwf (.q q) (by simp)) hinv
+      | r r => exact packResource_congr hs hk r comp (hwf (.r r) (by simp)) hinv
+    unfold packRecs
+    rw [← hx]
+    cases h1 : packRec x b1 comp with
+    | error e => rfl
+    | ok res =>
+      rcases res with ⟨x1, c1⟩
+      simp only []
+      have g2 := packRec_spec x b1 x1 comp c1 hinv hk (hwf x (by simp)) h1
+      rw [ih c1 (hs.append x1) (by simp; omega) (fun y hy => hwf y (by simp [hy])) g2]
+
+/-- `Message.AppendPack` in terms of the record sequence -/
+theorem packMessageWith_recs (m : Message) (comp : Option CompMap)
+    (h1 : m.questions.length ≤ 65535) (h2 : m.answers.length ≤ 65535)
+    (h3 : m.authorities.length ≤ 65535) (h4 : m.additionals.length ≤ 65535) :
+    packMessageWith m comp =
+      match packRecs (recs m) (packHeader m.hdr m.questions.length m.answers.length m.authorities.length
+          m.additionals.length) comp with
+      | .error e => .error e
+      | .ok (B, _) => .ok (packHeader m.hdr m.questions.length m.answers.length m.authorities.length
+          m.additionals.length ++ B) := by
+  have n1 : ¬ m.questions.length > 65535 := by omega
+  have n2 : ¬ m.answers.length > 65535 := by omega
+  have n3 : ¬ m.authorities.length > 65535 := by omega
+  have n4 : ¬ m.additionals.length > 65535 := by omega
+  unfold packMessageWith
+  simp only [n1, n2, n3, n4, if_false]
+  generalize packHeader m.hdr m.questions.length m.answers.length m.authorities.length
+    m.additionals.length = H
+  rw [recs, packRecs_append, packRecs_map_q]
+  cases packQuestions m.questions H comp with
+  | error e => rfl
+  | ok r1 =>
+    rcases r1 with ⟨b1, c1⟩
+    simp only []
+    rw [packRecs_append, packRecs_map_r]
+    cases packResources m.answers (H ++ b1) c1 with
+    | error e => rfl
+    | ok r2 =>
+      rcases r2 with ⟨b2, c2⟩
+      simp only []
+      rw [packRecs_append]
+      simp only [packRecs_map_r]
+      cases packResources m.authorities (H ++ b1 ++ b2) c2 with
+      | error e => rfl
+      | ok r3 =>
+        rcases r3 with ⟨b3, c3⟩
+        simp only []
+        cases packResources m.additionals (H ++ b1 ++ b2 ++ b3) c3 with
+        | error e => rfl
+        | ok r4 => rcases r4 with ⟨b4, c4⟩; simp
+
+/-! ## Accepted Builder calls -/
+
+theorem step_start_ok {b : Builder} {s : Nat} (h : (b.step (.start s)).2 = none) :
+    1 ≤ b.sec ∧ b.sec ≤ s ∧ (b.step (.start s)).1 = { b with sec := s } := by
+  simp only [Builder.step] at h ⊢
+  split at h
+  · simp at h
+  · split at h
+    · simp at h
+    · rename_i h1 h2
+      simp only [h1, h2, if_false]
+      exact ⟨by omega, by omega, trivial⟩
+
+theorem incr_ok {b b1 : Builder} (h : b.incr = .ok b1) :
+    b1.msg = b.msg ∧ b1.sec = b.sec ∧ b1.id = b.id ∧ b1.bits = b.bits ∧ b1.comp = b.comp ∧
+    ((b.sec = 2 ∧ b.nq ≠ 65535 ∧ b1.nq = b.nq + 1 ∧ b1.na = b.na ∧ b1.nu = b.nu ∧ b1.nr = b.nr) ∨
+     (b.sec = 3 ∧ b.na ≠ 65535 ∧ b1.nq = b.nq ∧ b1.na = b.na + 1 ∧ b1.nu = b.nu ∧ b1.nr = b.nr) ∨
+     (b.sec = 4 ∧ b.nu ≠ 65535 ∧ b1.nq = b.nq ∧ b1.na = b.na ∧ b1.nu = b.nu + 1 ∧ b1.nr = b.nr) ∨
+     (b.sec ≠ 2 ∧ b.sec ≠ 3 ∧ b.sec ≠ 4 ∧ b.nr ≠ 65535 ∧ b1.nq = b.nq ∧ b1.na = b.na ∧ b1.nu = b.nu ∧
+       b1.nr = b.nr + 1)) := by
+  unfold Builder.incr at h
+  split at h
+  · rename_i h2
+    split at h
+    · simp at h
+    · simp at h; subst h; simp; omega
+  · split at h
+    · rename_i h2 h3
+      split at h
+      · simp at h
+      · simp at h; subst h; simp; omega
+    · split at h
+      · rename_i h2 h3 h4
+        split at h
+        · simp at h
+        · simp at h; subst h; simp; omega
+      · rename_i h2 h3 h4
+        split at h
+        · simp at h
+        · simp at h; subst h; simp; omega
+
+theorem step_question_ok {b : Builder} {q : Question} (h : (b.step (.question q)).2 = none) :
+    b.sec = 2 ∧ ∃ bs c b1, packQuestion q b.msg b.comp = .ok (bs, c) ∧
+      ({ b with comp := c } : Builder).incr = .ok b1 ∧
+      (b.step (.question q)).1 = { b1 with msg := b.msg ++ bs } := by
+  simp only [Builder.step] at h
+  split at h
+  · simp at h
+  · split at h
+    · simp at h
+    · rename_i h1 h2
+      split at h
+      · simp at h
+      · rename_i bs c hq
+        split at h
+        · simp at h
+        · rename_i b1 hi
+          refine ⟨by omega, bs, c, b1, hq, hi, ?_⟩
+          simp [Builder.step, h1, h2, hq, hi]
+
+theorem step_resource_ok {b : Builder} {r : Resource} (h : (b.step (.resource r)).2 = none) :
+    3 ≤ b.sec ∧ b.sec ≤ 5 ∧ ∃ bs c b1, packResource r b.msg b.comp = .ok (bs, c) ∧
+      ({ b with comp := c } : Builder).incr = .ok b1 ∧
+      (b.step (.resource r)).1 = { b1 with msg := b.msg ++ bs } := by
+  simp only [Builder.step] at h
+  split at h
+  · simp at h
+  · split at h
+    · simp at h
+    · rename_i h1 h2
+      split at h
+      · simp at h
+      · rename_i nb c1 hn
+        split at h
+        · simp at h
+        · rename_i bb c2 hb
+          split at h
+          · simp at h
+          · rename_i bs c hr
+            split at h
+            · simp at h
+            · rename_i b1 hi
+              refine ⟨by omega, by omega, bs, c, b1, hr, hi, ?_⟩
+              simp only [Builder.step, h1, h2, if_false, hn, hb, hr, hi]
+
+theorem step_finish_ok {b : Builder} (h : (b.step .finish).2 = none) :
+    1 ≤ b.sec ∧ (b.step .finish).1 = { b with sec := 6 } := by
+  simp only [Builder.step] at h ⊢
+  split at h
+  · simp at h
+  · rename_i h1
+    simp only [h1, if_false]
+    exact ⟨by omega, trivial⟩
+
+/-! ## The message an accepted call sequence describes -/
+
+def addRes (sec : Nat) (m : Message) (r : Resource) : Message :=
+  if sec = 3 then { m with answers := m.answers ++ [r] }
+  else if sec = 4 then { m with authorities := m.authorities ++ [r] }
+  else { m with additionals := m.additionals ++ [r] }
+
+/-- one call: new section and message (`sec` is the Builder's section) -/
+def describeStep (sec : Nat) (m : Message) : BOp → Nat × Message
+  | .start s => (s, m)
+  | .question q => (sec, { m with questions := m.questions ++ [q] })
+  | .resource r => (sec, addRes sec m r)
+  | .finish => (6, m)
+  | .enableCompression => (sec, m)
+
+def describeAux : Nat → Message → List BOp → Message
+  | _, m, [] => m
+  | sec, m, op :: ops => describeAux (describeStep sec m op).1 (describeStep sec m op).2 ops
+
+/-- the message described by the calls after `NewBuilder(h)`: questions and records in call order,
+each record in the section that was current when it was added -/
+def describe (h : Header) (ops : List BOp) : Message :=
+  describeAux 1 { hdr := h, questions := [], answers := [], authorities := [], additionals := [] } ops
+
+def WFOp : BOp → Prop
+  | .question q => WFQuestion q
+  | .resource r => WFResource r
+  | _ => True
+
+def Z : Bytes := List.replicate 12 0
+
+/-- Builder state `b` holds exactly the message `m` packed so far (compression `comp0`). -/
+structure BInv (comp0 : Option CompMap) (b : Builder) (m : Message) : Prop where
+  sec_ge : 1 ≤ b.sec
+  hid : b.id = m.hdr.id % 65536
+  hbits : b.bits = m.hdr.bits
+  hnq : b.nq = m.questions.length
+  hna : b.na = m.answers.length
+  hnu : b.nu = m.authorities.length
+  hnr : b.nr = m.additionals.length
+  cnt : b.nq ≤ 65535 ∧ b.na ≤ 65535 ∧ b.nu ≤ 65535 ∧ b.nr ≤ 65535
+  e2 : b.sec < 2 → m.questions = []
+  e3 : b.sec < 3 → m.answers = []
+  e4 : b.sec < 4 → m.authorities = []
+  e5 : b.sec < 5 → m.additionals = []
+  wf : ∀ x ∈ recs m, WFRec x
+  hpack : ∃ B, b.msg = Z ++ B ∧ packRecs (recs m) Z comp0 = .ok (B, b.comp)
+
+theorem packRecs_snoc {xs : List Rec} {x : Rec} {buf B bs : Bytes} {c0 c1 c2 : Option CompMap}
+    (h1 : packRecs xs buf c0 = .ok (B, c1)) (h2 : packRec x (buf ++ B) c1 = .ok (bs, c2)) :
+    packRecs (xs ++ [x]) buf c0 = .ok (B ++ bs, c2) := by
+  rw [packRecs_append, h1]
+  simp [packRecs, h2]
+
+theorem step_question_ok' {b : Builder} {q : Question} (h : (b.step (.question q)).2 = none) :
+    b.sec = 2 ∧ ∃ bs c, packQuestion q b.msg b.comp = .ok (bs, c) ∧ b.nq ≠ 65535 ∧
+      (b.step (.question q)).1 = { b with msg := b.msg ++ bs, comp := c, nq := b.nq + 1 } := by
+  rcases step_question_ok h with ⟨hsec, bs, c, b1, hq, hi, heq⟩
+  refine ⟨hsec, bs, c, hq, ?_⟩
+  simp only [Builder.incr, hsec, if_true] at hi
+  split at hi
+  · simp at hi
+  · rename_i hn
+    simp at hi
+    subst hi
+    refine ⟨hn, ?_⟩
+    rw [heq]; cases b; simp_all
+
+theorem step_resource_ok' {b : Builder} {r : Resource} (h : (b.step (.resource r)).2 = none) :
+    ∃ bs c, packResource r b.msg b.comp = .ok (bs, c) ∧
+      ((b.sec = 3 ∧ b.na ≠ 65535 ∧
+          (b.step (.resource r)).1 = { b with msg := b.msg ++ bs, comp := c, na := b.na + 1 }) ∨
+       (b.sec = 4 ∧ b.nu ≠ 65535 ∧
+          (b.step (.resource r)).1 = { b with msg := b.msg ++ bs, comp := c, nu := b.nu + 1 }) ∨
+       (b.sec = 5 ∧ b.nr ≠ 65535 ∧
+          (b.step (.resource r)).1 = { b with msg := b.msg ++ bs, comp := c, nr := b.nr + 1 })) := by
+  rcases step_resource_ok h with ⟨h3, h5, bs, c, b1, hq, hi, heq⟩
+  refine ⟨bs, c, hq, ?_⟩
+  have hcases : b.sec = 3 ∨ b.sec = 4 ∨ b.sec = 5 := by omega
+  rcases hcases with hs | hs | hs
+  · left
+    simp only [Builder.incr, hs, Nat.reduceEqDiff, if_false, if_true] at hi
+    split at hi
+    · simp at hi
+    · rename_i hn; simp at hi; subst hi; refine ⟨hs, hn, ?_⟩; rw [heq]; cases b; simp_all
+  · right; left
+    simp only [Builder.incr, hs, Nat.reduceEqDiff, if_false, if_true] at hi
+    split at hi
+    · simp at hi
+    · rename_i hn; simp at hi; subst hi; refine ⟨hs, hn, ?_⟩; rw [heq]; cases b; simp_all
+  · right; right
+    simp only [Builder.incr, hs, Nat.reduceEqDiff, if_false, if_true] at hi
+    split at hi
+    · simp at hi
+    · rename_i hn; simp at hi; subst hi; refine ⟨hs, hn, ?_⟩; rw [heq]; cases b; simp_all
+
+@[simp] theorem addRes_hdr (s : Nat) (m : Message) (r : Resource) : (addRes s m r).hdr = m.hdr := by
+  unfold addRes; split <;> (try split) <;> rfl
+
+theorem recs_addQ (m : Message) (q : Question) (ha : m.answers = []) (hu : m.authorities = [])
+    (hr : m.additionals = []) : recs { m with questions := m.questions ++ [q] } = recs m ++ [.q q] := by
+  simp [recs, ha, hu, hr]
+
+theorem step_inv {comp0 : Option CompMap} {b : Builder} {m : Message} (op : BOp)
+    (hinv : BInv comp0 b m) (hne : op ≠ .enableCompression) (hwf : WFOp op)
+    (hacc : (b.step op).2 = none) :
+    BInv comp0 (b.step op).1 (describeStep b.sec m op).2 ∧ (b.step op).1.sec = (describeStep b.sec m op).1 := by
+  rcases hinv with ⟨sge, hid, hbits, hnq, hna, hnu, hnr, cnt, e2, e3, e4, e5, wf, B, hmsg, hpk⟩
+  cases op with
+  | enableCompression => exact absurd rfl hne
+  | start s =>
+    rcases step_start_ok hacc with ⟨_, hle, heq⟩
+    rw [heq]
+    refine ⟨⟨?_, hid, hbits, hnq, hna, hnu, hnr, cnt, ?_, ?_, ?_, ?_, wf, B, hmsg, hpk⟩, rfl⟩
+    · show 1 ≤ s; omega
+    · intro h; exact e2 (by have : s < 2 := h; omega)
+    · intro h; exact e3 (by have : s < 3 := h; omega)
+    · intro h; exact e4 (by have : s < 4 := h; omega)
+    · intro h; exact e5 (by have : s < 5 := h; omega)
+  | finish =>
+    rcases step_finish_ok hacc with ⟨_, heq⟩
+    rw [heq]
+    refine ⟨⟨?_, hid, hbits, hnq, hna, hnu, hnr, cnt, ?_, ?_, ?_, ?_, wf, B, hmsg, hpk⟩, rfl⟩
+    · show 1 ≤ 6; omega
+    · intro h; have : (6 : Nat) < 2 := h; omega
+    · intro h; have : (6 : Nat) < 3 := h; omega
+    · intro h; have : (6 : Nat) < 4 := h; omega
+    · intro h; have : (6 : Nat) < 5 := h; omega
+  | question q =>
+    rcases step_question_ok' hacc with ⟨hsec, bs, c, hq, hn, heq⟩
+    have ha : m.answers = [] := e3 (by omega)
+    have hu : m.authorities = [] := e4 (by omega)
+    have hr : m.additionals = [] := e5 (by omega)
+    have hrecs := recs_addQ m q ha hu hr
+    rw [heq]
+    refine ⟨⟨sge, hid, hbits, ?_, hna, hnu, hnr, ?_, ?_, fun _ => ha, fun _ => hu, fun _ => hr, ?_,
+      B ++ bs, ?_, ?_⟩, rfl⟩
+    · show b.nq + 1 = (m.questions ++ [q]).length
+      simp [hnq]
+    · show b.nq + 1 ≤ 65535 ∧ b.na ≤ 65535 ∧ b.nu ≤ 65535 ∧ b.nr ≤ 65535
+      omega
+    · intro h; have : b.sec < 2 := h; omega
+    · intro x hx
+      simp only [describeStep, hrecs, List.mem_append, List.mem_singleton] at hx
+      rcases hx with hx | rfl
+      · exact wf x hx
+      · exact hwf
+    · show b.msg ++ bs = Z ++ (B ++ bs)
+      simp [hmsg]
+    · simp only [describeStep, hrecs]
+      exact packRecs_snoc hpk (by rw [← hmsg]; exact hq)
+  | resource r =>
+    rcases step_resource_ok' hacc with ⟨bs, c, hq, hcase⟩
+    have hsec : b.sec = 3 ∨ b.sec = 4 ∨ b.sec = 5 := by
+      rcases hcase with ⟨h, _⟩ | ⟨h, _⟩ | ⟨h, _⟩ <;> omega
+    have hrecs : recs (addRes b.sec m r) = recs m ++ [.r r] := by
+      unfold addRes
+      rcases hsec with h | h | h
+      · simp [h, recs, e4 (by omega), e5 (by omega)]
+      · simp [h, recs, e5 (by omega)]
+      · simp [h, recs]
+    have hwf' : ∀ x ∈ recs (addRes b.sec m r), WFRec x := by
+      intro x hx
+      rw [hrecs] at hx
+      simp only [List.mem_append, List.mem_singleton] at hx
+      rcases hx with hx | rfl
+      · exact wf x hx
+      · exact hwf
+    have hpk' : packRecs (recs (addRes b.sec m r)) Z comp0 = .ok (B ++ bs, c) := by
+      rw [hrecs]
+      exact packRecs_snoc hpk (by rw [← hmsg]; exact hq)
+    have hmsg' : b.msg ++ bs = Z ++ (B ++ bs) := by simp [hmsg]
+    rcases hcase with ⟨h, hn, heq⟩ | ⟨h, hn, heq⟩ | ⟨h, hn, heq⟩
+    · rw [heq]
+      refine ⟨⟨sge, by show b.id = _; simp [describeStep, hid], by show b.bits = _; simp [describeStep, hbits],
+        ?_, ?_, ?_, ?_, ?_, ?_, ?_, ?_, ?_, hwf', B ++ bs, hmsg', hpk'⟩, rfl⟩
+      · show b.nq = (addRes b.sec m r).questions.length; simp [addRes, h, hnq]
+      · show b.na + 1 = (addRes b.sec m r).answers.length; simp [addRes, h, hna]
+      · show b.nu = (addRes b.sec m r).authorities.length; simp [addRes, h, hnu]
+      · show b.nr = (addRes b.sec m r).additionals.length; simp [addRes, h, hnr]
+      · show b.nq ≤ 65535 ∧ b.na + 1 ≤ 65535 ∧ b.nu ≤ 65535 ∧ b.nr ≤ 65535; omega
+      · intro hh; have : b.sec < 2 := hh; omega
+      · intro hh; have : b.sec < 3 := hh; omega
+      · intro hh; show (addRes b.sec m r).authorities = []; simp [addRes, h, e4 (by omega)]
+      · intro hh; show (addRes b.sec m r).additionals = []; simp [addRes, h, e5 (by omega)]
+    · rw [heq]
+      refine ⟨⟨sge, by show b.id = _; simp [describeStep, hid], by show b.bits = _; simp [describeStep, hbits],
+        ?_, ?_, ?_, ?_, ?_, ?_, ?_, ?_, ?_, hwf', B ++ bs, hmsg', hpk'⟩, rfl⟩
+      · show b.nq = (addRes b.sec m r).questions.length; simp [addRes, h, hnq]
+      · show b.na = (addRes b.sec m r).answers.length; simp [addRes, h, hna]
+      · show b.nu + 1 = (addRes b.sec m r).authorities.length; simp [addRes, h, hnu]
+      · show b.nr = (addRes b.sec m r).additionals.length; simp [addRes, h, hnr]
+      · show b.nq ≤ 65535 ∧ b.na ≤ 65535 ∧ b.nu + 1 ≤ 65535 ∧ b.nr ≤ 65535; omega
+      · intro hh; have : b.sec < 2 := hh; omega
+      · intro hh; have : b.sec < 3 := hh; omega
+      · intro hh; have : b.sec < 4 := hh; omega
+      · intro hh; show (addRes b.sec m r).additionals = []; simp [addRes, h, e5 (by omega)]
+    · rw [heq]
+      refine ⟨⟨sge, by show b.id = _; simp [describeStep, hid], by show b.bits = _; simp [describeStep, hbits],
+        ?_, ?_, ?_, ?_, ?_, ?_, ?_, ?_, ?_, hwf', B ++ bs, hmsg', hpk'⟩, rfl⟩
+      · show b.nq = (addRes b.sec m r).questions.length; simp [addRes, h, hnq]
+      · show b.na = (addRes b.sec m r).answers.length; simp [addRes, h, hna]
+      · show b.nu = (addRes b.sec m r).authorities.length; simp [addRes, h, hnu]
+      · show b.nr + 1 = (addRes b.sec m r).additionals.length; simp [addRes, h, hnr]
+      · show b.nq ≤ 65535 ∧ b.na ≤ 65535 ∧ b.nu ≤ 65535 ∧ b.nr + 1 ≤ 65535; omega
+      · intro hh; have : b.sec < 2 := hh; omega
+      · intro hh; have : b.sec < 3 := hh; omega
+      · intro hh; have : b.sec < 4 := hh; omega
+      · intro hh; have : b.sec < 5 := hh; omega
+
+theorem run_cons (b : Builder) (op : BOp) (ops : List BOp) :
+    (b.run (op :: ops)).1 = ((b.step op).1.run ops).1 ∧
+    (b.run (op :: ops)).2 = (b.step op).2 :: ((b.step op).1.run ops).2 := by
+  simp [Builder.run]
+
+theorem run_inv {comp0 : Option CompMap} : ∀ (ops : List BOp) (b : Builder) (m : Message),
+    BInv comp0 b m → (∀ op ∈ ops, op ≠ .enableCompression ∧ WFOp op) →
+    (∀ e ∈ (b.run ops).2, e = none) →
+    BInv comp0 (b.run ops).1 (describeAux b.sec m ops) := by
+  intro ops
+  induction ops with
+  | nil => intro b m hinv _ _; simpa [Builder.run, describeAux] using hinv
+  | cons op ops ih =>
+    intro b m hinv hops hacc
+    rw [(run_cons b op ops).2] at hacc
+    have h1 : (b.step op).2 = none := hacc _ (by simp)
+    rcases step_inv op hinv (hops op (by simp)).1 (hops op (by simp)).2 h1 with ⟨hinv', hsec⟩
+    have := ih (b.step op).1 _ hinv' (fun o ho => hops o (by simp [ho])) (fun e he => hacc e (by simp [he]))
+    rw [(run_cons b op ops).1, describeAux, ← hsec]
+    exact this
+
+theorem u16_mod (x : Nat) : u16 (x % 65536) = u16 x := by
+  simp only [u16]
+  have h1 : x % 65536 / 256 % 256 = x / 256 % 256 := by omega
+  have h2 : x % 65536 % 256 = x % 256 := by omega
+  rw [h1, h2]
+
+/-- the Builder right after `NewBuilder(h)` (and `EnableCompression()` if `compress`) -/
+def startBuilder (h : Header) (compress : Bool) : Builder :=
+  if compress then ((newBuilder h).step .enableCompression).1 else newBuilder h
+
+def startComp (compress : Bool) : Option CompMap := if compress then some [] else none
+
+/-- **An accepted Builder call sequence produces exactly the bytes of `Message.Pack`** (of
+`AppendPack` without the map, when compression was not enabled) of the message it describes.
+Accepted: every call returned nil; compression is chosen before the first record. -/
+theorem builder_eq_pack (h : Header) (compress : Bool) (ops : List BOp)
+    (hops : ∀ op ∈ ops, op ≠ .enableCompression ∧ WFOp op)
+    (hacc : ∀ e ∈ ((startBuilder h compress).run ops).2, e = none) :
+    packMessageWith (describe h ops) (startComp compress) =
+      .ok ((startBuilder h compress).run ops).1.bytes := by
+  have h0 : BInv (startComp compress) (startBuilder h compress)
+      { hdr := h, questions := [], answers := [], authorities := [], additionals := [] } := by
+    have hb : startBuilder h compress = { newBuilder h with comp := startComp compress } := by
+      cases compress <;> simp [startBuilder, startComp, Builder.step, newBuilder]
+    rw [hb]
+    refine ⟨by simp [newBuilder], rfl, rfl, rfl, rfl, rfl, rfl, by simp [newBuilder], fun _ => rfl,
+      fun _ => rfl, fun _ => rfl, fun _ => rfl, by intro x hx; simp [recs] at hx, [], by simp [newBuilder, Z], ?_⟩
+    simp [recs, packRecs]
+  have hsec : (startBuilder h compress).sec = 1 := by
+    cases compress <;> simp [startBuilder, Builder.step, newBuilder]
+  have hfin := run_inv ops _ _ h0 hops hacc
+  rw [hsec] at hfin
+  rcases hfin with ⟨_, hid, hbits, hnq, hna, hnu, hnr, cnt, _, _, _, _, wf, B, hmsg, hpk⟩
+  have hdesc : describe h ops = describeAux 1
+      { hdr := h, questions := [], answers := [], authorities := [], additionals := [] } ops := rfl
+  rw [← hdesc] at hid hbits hnq hna hnu hnr wf hpk
+  generalize describe h ops = m at *
+  generalize ((startBuilder h compress).run ops).1 = b at *
+  have hH : (packHeader m.hdr m.questions.length m.answers.length m.authorities.length
+      m.additionals.length).length = 12 := by simp [packHeader, u16]
+  have hs : SameFrom 12 Z (packHeader m.hdr m.questions.length m.answers.length m.authorities.length
+      m.additionals.length) := by
+    refine ⟨by simp [Z, hH], ?_⟩
+    rw [List.drop_eq_nil_of_le (by simp [Z]), List.drop_eq_nil_of_le (by omega)]
+  have hci : CompInvOpt 12 Z (startComp compress) := by
+    cases compress
+    · trivial
+    · exact compInv_nil 12 _
+  have hcong := packRecs_congr (recs m) (startComp compress) hs (by simp [Z]) wf hci
+  rw [hpk] at hcong
+  rw [packMessageWith_recs m _ (by omega) (by omega) (by omega) (by omega), ← hcong]
+  simp only [Builder.bytes, packHeader, hid, hbits, hnq, hna, hnu, hnr, hmsg, u16_mod]
+  have : (Z ++ B).drop 12 = B := by
+    have : Z.length = 12 := by simp [Z]
+    rw [← this, List.drop_left]
+  rw [this]
+
+/-- the records of the described message are the well-formed records of the calls -/
+theorem builder_describe_wf (h : Header) (compress : Bool) (ops : List BOp)
+    (hops : ∀ op ∈ ops, op ≠ .enableCompression ∧ WFOp op)
+    (hacc : ∀ e ∈ ((startBuilder h compress).run ops).2, e = none) :
+    (describe h ops).hdr = h ∧ ∀ x ∈ recs (describe h ops), WFRec x := by
+  have h0 : BInv (startComp compress) (startBuilder h compress)
+      { hdr := h, questions := [], answers := [], authorities := [], additionals := [] } := by
+    have hb : startBuilder h compress = { newBuilder h with comp := startComp compress } := by
+      cases compress <;> simp [startBuilder, startComp, Builder.step, newBuilder]
+    rw [hb]
+    refine ⟨by simp [newBuilder], rfl, rfl, rfl, rfl, rfl, rfl, by simp [newBuilder], fun _ => rfl,
+      fun _ => rfl, fun _ => rfl, fun _ => rfl, by intro x hx; simp [recs] at hx, [], by simp [newBuilder, Z], ?_⟩
+    simp [recs, packRecs]
+  have hsec : (startBuilder h compress).sec = 1 := by
+    cases compress <;> simp [startBuilder, Builder.step, newBuilder]
+  have hfin := run_inv ops _ _ h0 hops hacc
+  rw [hsec] at hfin
+  refine ⟨?_, hfin.wf⟩
+  -- the header never changes
+  have : ∀ (ops : List BOp) (sec : Nat) (m : Message), (describeAux sec m ops).hdr = m.hdr := by
+    intro ops
+    induction ops with
+    | nil => intro sec m; rfl
+    | cons op ops ih =>
+      intro sec m
+      rw [describeAux, ih]
+      cases op <;> simp [describeStep]
+  exact this ops 1 _
+
+/-- **A failed Builder call** leaves the message bytes, the section and the counters alone; the
+only thing it may change is the compression map (which `Name.pack` updates in place before the
+call fails). -/
+theorem step_failed (b : Builder) (op : BOp) (h : (b.step op).2 ≠ none) :
+    (b.step op).1.msg = b.msg ∧ (b.step op).1.sec = b.sec ∧ (b.step op).1.id = b.id ∧
+    (b.step op).1.bits = b.bits ∧ (b.step op).1.nq = b.nq ∧ (b.step op).1.na = b.na ∧
+    (b.step op).1.nu = b.nu ∧ (b.step op).1.nr = b.nr := by
+  cases op <;> simp only [Builder.step] at h ⊢ <;> (repeat' split) <;> simp_all
 
 end NetVerif.Proofs.DnsBuilder
